@@ -33,7 +33,7 @@ static void flush_stats() {
 extern "C" void vf_on_property_failure(void) { flush_stats(); }
 
 extern "C" int LLVMFuzzerInitialize(int *, char ***) {
-	setenv("G_SLICE", "always-malloc", 1);
+	if (!getenv("G_SLICE")) fprintf(stderr, "vffuzz: warning: G_SLICE=always-malloc is not set in the environment (GLib reads it at load time); bin/check sets it\n");
 	const char *p = getenv("VF_FUZZ_PROP");
 	g_prop = find_prop(p ? p : "C12");
 	if (!g_prop) { fprintf(stderr, "unknown property %s\n", p ? p : ""); exit(2); }
